@@ -17,7 +17,7 @@ import (
 // C11: parent status = hook status + observedGeneration; nothing else is touched (DESIGN §4 C11).
 
 var c11HookStatus = []string{"null", "empty", "flat", "nested", "own-observedGeneration", "conditions"}
-var c11Live = []string{"same", "spec-edited", "labels-edited", "recreated", "gone"}
+var c11Live = []string{"same", "spec-edited", "labels-edited", "recreated", "gone", "status-edited"}
 var c11Existing = []string{"absent", "equal", "different"}
 var c11Conflicts = []int{0, 1, 2, 4} // retry.DefaultBackoff gives up after 4 attempts
 var c11Faults = []string{"none", "get-500", "put-500", "put-timeout", "put-lost-response"}
@@ -97,6 +97,9 @@ func c11Run(c c11Case) []mc.Finding {
 		w.Sim.Edit(kit.Thing, "n1", "p", func(o map[string]interface{}) { kit.Field(o, int64(2), "spec", "x") })
 	case "labels-edited":
 		w.Sim.Edit(kit.Thing, "n1", "p", func(o map[string]interface{}) { kit.Labels(o, "l", "2") })
+	case "status-edited":
+		// someone else wrote the status since the parent was observed: what the cache shows is not what is stored
+		w.Sim.Edit(kit.Thing, "n1", "p", func(o map[string]interface{}) { o["status"] = map[string]interface{}{"written-by": "someone-else"} })
 	case "recreated":
 		w.Sim.Remove(kit.Thing, "n1", "p")
 		np := kit.Copy(parent)
